@@ -313,6 +313,12 @@ func genBasePath(r *rand.Rand) string {
 	if n > 0 && r.Intn(2) == 0 {
 		p += "/"
 	}
+	if n >= 2 && r.Intn(6) == 0 {
+		// the same path written in a longer way (a doubled slash, a "." or ".." element): client and server are
+		// given the same string and agree on the path it means
+		k := strings.Index(p[1:], "/") + 1
+		p = p[:k] + pick(r, "//", "/./", "/zz/../") + p[k+1:]
+	}
 	return p
 }
 
